@@ -13,6 +13,7 @@
 //   C04 cb S <belief> a O <vlist>*O | <entry> value     crossSumBestAtBelief(b, row, a, &value)
 //   C04 wv <pomdp> <vlist w> a <entry> | nAgenda <vec>* nTried <obs>*    Witness::addDefaultEntry + addVariations
 //   C04 perseus <pomdp> nB <belief>* v0 h | <vf>        PERSEUS run with its (reproduced) belief list vs perseusRun
+//   C04 ls <pomdp> <vlist prev> | <vlist level> | walked tie nLists {n <belief>*}*   one LinearSupport timestep vs lsStep
 //   C04 pbvi <pomdp> nB <belief>* h | <vf>              PBVI(nB, h, 0)(model, beliefs): whole run vs the Lean model pbviRun
 #include "common/verif.hpp"
 #include "common/gen.hpp"
@@ -307,6 +308,75 @@ static void emitPERSEUS(Rng & rng) {
     l << (double)vf[0][0].values[0] << h << "|"; putVF(l, vf); l.emit();
 }
 
+// LinearSupport, one timestep at a time: the real run gives the levels; the vertex lists the real findVerticesNaive hands
+// out along the way are obtained by walking the same loop here with the library's own kernels (they are ORACLE answers
+// for the Lean model `lsStep`, which is then compared with the real level).  If this walk does not end in the real
+// level (e.g. the heap broke an error tie differently) the line says so and is not compared.
+static void emitLS(Rng & rng) {
+    size_t S = 2 + rng.below(3), A = 2 + rng.below(2), O = 1 + rng.below(3);
+    unsigned h = 1 + (unsigned)rng.below(3);
+    if (S == 4) h = std::min(h, 2u);
+    auto pt = randomPomdp(rng, S, A, O);
+    Model model = toDense(pt);
+    P::LinearSupport solver(h, 0.0);
+    auto vf = std::get<1>(solver(model));
+    P::Projecter<Model> project(model);
+    for (size_t t = 1; t < vf.size(); ++t) {
+        auto projections = project(vf[t - 1]);
+        P::VList good; std::vector<P::VEntry> all;
+        auto inAll = [&](const P::VEntry & e) { for (auto & x : all) if (x == e) return true; return false; };
+        AIToolbox::Vector corner(S); corner.setZero();
+        for (size_t s = 0; s < S; ++s) {
+            corner[s] = 1.0;
+            auto e = P::crossSumBestAtBelief(corner, projections);
+            if (!inAll(e)) { all.push_back(e); good.push_back(e); }
+            corner[s] = 0.0;
+        }
+        struct Vx { AIToolbox::Vector belief; double cur; P::VEntry support; double err; };
+        std::vector<Vx> agenda; std::vector<AIToolbox::Vector> tried;
+        std::vector<std::vector<AIToolbox::Vector>> lists;
+        bool tie = false;
+        auto vertices = AIToolbox::findVerticesNaive(good, P::unwrap);
+        lists.push_back(vertices.first);
+        size_t guard = 0;
+        while (guard++ < 200) {
+            for (size_t i = 0; i < vertices.first.size(); ++i) {
+                const auto & vertex = vertices.first[i];
+                bool seen = false; for (auto & x : tried) if (x == vertex) { seen = true; break; }
+                if (seen) continue;
+                double trueValue;
+                auto support = P::crossSumBestAtBelief(vertex, projections, &trueValue);
+                double currentValue;
+                AIToolbox::findBestAtPoint(vertex, good.cbegin(), good.cend(), &currentValue, P::unwrap);
+                double diff = trueValue - currentValue;
+                if (diff > 0.0 && AIToolbox::checkDifferentGeneral(diff, 0.0)) {
+                    if (!inAll(support)) all.push_back(support);
+                    agenda.push_back(Vx{vertex, currentValue, support, diff});
+                }
+                tried.push_back(vertex);
+            }
+            if (agenda.empty()) break;
+            size_t bi = 0;
+            for (size_t i = 1; i < agenda.size(); ++i) { if (agenda[i].err > agenda[bi].err) bi = i; }
+            for (size_t i = 0; i < agenda.size(); ++i) if (i != bi && agenda[i].err == agenda[bi].err) tie = true;
+            Vx best = agenda[bi]; agenda.erase(agenda.begin() + bi);
+            std::vector<Vx> keep;
+            for (auto & it : agenda) if (!(it.belief.dot(best.support.values) > it.cur)) keep.push_back(it);
+            agenda.swap(keep);
+            const P::VEntry * bp = &best.support;
+            vertices = AIToolbox::findVerticesNaive(bp, bp + 1, good.cbegin(), good.cend(), P::unwrap, P::unwrap);
+            lists.push_back(vertices.first);
+            good.push_back(best.support);
+        }
+        bool walked = good.size() == vf[t].size();
+        for (size_t i = 0; walked && i < good.size(); ++i) walked = (good[i] == vf[t][i]);
+        Line l; l << "C04" << "ls"; putPomdp(l, pt); putVList(l, vf[t - 1]); l << "|"; putVList(l, vf[t]); l << "|";
+        l << walked << tie << (size_t)lists.size();
+        for (auto & lst : lists) { l << (size_t)lst.size(); for (auto & b : lst) putVector(l, b); }
+        l.emit();
+    }
+}
+
 // PBVI with an explicit belief list is deterministic and LP-free: the whole run is compared with the Lean model `pbviRun`
 static void emitPBVI(Rng & rng) {
     size_t S = 2 + rng.below(3), A = 1 + rng.below(3), O = rng.coin() ? 2 : (rng.coin() ? 1 : 4);
@@ -332,7 +402,7 @@ void verif::verif_case(Rng & rng, long idx, const std::string & tier) {
     if (idx == 1) { runSolver(rng, 5, witnessQmdp(), 1); return; }           // QMDP with VI horizon 1 IS a one-step plan
     if (idx >= 2 && idx < 7) { runSolver(rng, (int)idx - 2, tigerTables(), 3); return; }
     if (idx == 7) { runSolver(rng, 0, tigerTables(), 4); return; }
-    if (idx >= 8 && idx < kFixed) { for (int k = 0; k < 12; ++k) { emitXD(rng); emitPR(rng); emitCS(rng); emitPJ(rng); emitPBVI(rng); emitWV(rng); emitPERSEUS(rng); } return; }
+    if (idx >= 8 && idx < kFixed) { for (int k = 0; k < 12; ++k) { emitXD(rng); emitPR(rng); emitCS(rng); emitPJ(rng); emitPBVI(rng); emitWV(rng); emitPERSEUS(rng); emitLS(rng); } return; }
     long r = idx - kFixed;
     int which = (int)(r % 6);
     size_t S = 2 + rng.below(3), A = 1 + rng.below(3), O = 1 + rng.below(3);
@@ -347,7 +417,7 @@ void verif::verif_case(Rng & rng, long idx, const std::string & tier) {
     double tol = (rng.coin(1, 8)) ? 0.5 : 0.0;                                // early stop on tolerance: shorter value function
     if (std::getenv("VERIF_DEBUG")) std::fprintf(stderr, "case %ld: %s S=%zu A=%zu O=%zu h=%u ugly=%d sparse=%d tol=%g\n", idx, kSolvers[which], S, A, O, h, (int)ugly, (int)sparse, tol);
     runSolver(rng, which, pt, h, tol, sparse);
-    if (r % 10 == 0) { emitXD(rng); emitPR(rng); emitCS(rng); emitPJ(rng); emitPBVI(rng); emitWV(rng); emitPERSEUS(rng); }
+    if (r % 10 == 0) { emitXD(rng); emitPR(rng); emitCS(rng); emitPJ(rng); emitPBVI(rng); emitWV(rng); emitPERSEUS(rng); emitLS(rng); }
 }
 
 VERIF_MAIN
